@@ -283,20 +283,20 @@ def setCtx (w : World) (c : RunnerCtx) : World :=
   else { w with ctxs := w.ctxs ++ [c] }
 
 /-- `RunnerContext.place(trade_id)` -/
-def ctxPlace (w : World) (k : CtxKey) (trade : Nat) : World :=
-  let c := w.ctx k
-  w.setCtx { c with
-    invested := true, lastPlaced := some w.clock,
+def _root_.Flumine.RunnerCtx.place (c : RunnerCtx) (now : Time) (trade : Nat) : RunnerCtx :=
+  { c with
+    invested := true, lastPlaced := some now,
     trades := if c.trades.contains trade then c.trades else c.trades ++ [trade],
     liveTrades := if c.liveTrades.contains trade then c.liveTrades else c.liveTrades ++ [trade] }
 
 /-- `RunnerContext.reset(trade_id)` -/
-def ctxReset (w : World) (k : CtxKey) (trade : Nat) : World :=
-  let c := w.ctx k
-  if c.liveTrades.contains trade then
-    w.setCtx { c with lastReset := some w.clock, liveTrades := c.liveTrades.erase trade }
-  else
-    w.setCtx { c with lastReset := some w.clock, resetWarnings := c.resetWarnings + 1 }
+def _root_.Flumine.RunnerCtx.reset (c : RunnerCtx) (now : Time) (trade : Nat) : RunnerCtx :=
+  if c.liveTrades.contains trade then { c with lastReset := some now, liveTrades := c.liveTrades.erase trade }
+  else { c with lastReset := some now, resetWarnings := c.resetWarnings + 1 }
+
+def ctxPlace (w : World) (k : CtxKey) (trade : Nat) : World := w.setCtx ((w.ctx k).place w.clock trade)
+
+def ctxReset (w : World) (k : CtxKey) (trade : Nat) : World := w.setCtx ((w.ctx k).reset w.clock trade)
 
 /-! ### trade -/
 
